@@ -776,4 +776,358 @@ theorem byteSubstring_eq_spec (check : Bool) (v : List Nat) (start : Int) (len :
   · simp at h
 
 
+
+/-! ## the StringView arms agree with the generic arms, for any byte kernel -/
+
+theorem zipAll_take (k : Nat → Nat → Bool) (h n : List Nat) :
+    zipAll k (h.take n.length) n = zipAll k h n := by
+  induction n generalizing h with
+  | nil => cases h <;> simp [zipAll]
+  | cons a n ih => cases h <;> simp [zipAll, ih]
+
+theorem zipAll_eq_all_zip (k : Nat → Nat → Bool) (a b : List Nat) :
+    zipAll k a b = (a.zip b).all (fun p => k p.1 p.2) := by
+  induction a generalizing b with
+  | nil => simp [zipAll]
+  | cons x a ih => cases b <;> simp [zipAll, ih]
+
+theorem zipAll_append (k : Nat → Nat → Bool) (a x b y : List Nat) (h : a.length = b.length) :
+    zipAll k (a ++ x) (b ++ y) = (zipAll k a b && zipAll k x y) := by
+  induction a generalizing b with
+  | nil => cases b <;> simp_all [zipAll]
+  | cons c a ih =>
+    cases b with
+    | nil => simp at h
+    | cons d b => simp [zipAll, ih b (by simpa using h), Bool.and_assoc]
+
+theorem zipAll_reverse (k : Nat → Nat → Bool) (a b : List Nat) (h : a.length = b.length) :
+    zipAll k a.reverse b.reverse = zipAll k a b := by
+  induction a generalizing b with
+  | nil => cases b <;> simp_all [zipAll]
+  | cons c a ih =>
+    cases b with
+    | nil => simp at h
+    | cons d b =>
+      simp only [List.reverse_cons]
+      rw [zipAll_append _ _ _ _ _ (by simpa using h), ih b (by simpa using h)]
+      simp [zipAll, Bool.and_comm]
+
+theorem zipAll_append_left (k : Nat → Nat → Bool) (a x b : List Nat) (h : a.length = b.length) :
+    zipAll k (a ++ x) b = zipAll k a b := by
+  have := zipAll_append k a x b [] h
+  simp only [List.append_nil] at this
+  rw [this]
+  cases x <;> simp [zipAll]
+
+theorem equalsBytes_prefix_gen (k : Nat → Nat → Bool) (h n : List Nat) :
+    equalsBytes k (prefixBytes h n.length) n = bytesStartsWith k h n := by
+  unfold equalsBytes prefixBytes bytesStartsWith
+  by_cases hl : h.length < n.length
+  · have : n.length > h.length := hl
+    simp only [hl, if_true]
+    cases n with
+    | nil => simp at hl
+    | cons a n => simp
+  · have h1 : ¬ n.length > h.length := by omega
+    have hlen : (h.take n.length).length = n.length := by simp; omega
+    simp only [hl, if_false, hlen, beq_self_eq_true, Bool.true_and, zipAll_take]
+
+theorem equalsBytes_suffix_gen (k : Nat → Nat → Bool) (h n : List Nat) :
+    equalsBytes k (suffixBytes h n.length) n = bytesEndsWith k h n := by
+  unfold equalsBytes suffixBytes bytesEndsWith
+  by_cases hl : h.length < n.length
+  · have : n.length > h.length := hl
+    simp only [hl, if_true]
+    cases n with
+    | nil => simp at hl
+    | cons a n => simp
+  · have h1 : ¬ n.length > h.length := by omega
+    have hlen : (h.drop (h.length - n.length)).length = n.length := by simp; omega
+    simp only [hl, if_false, hlen, beq_self_eq_true, Bool.true_and]
+    conv => rhs; rw [← List.take_append_drop (h.length - n.length) h, List.reverse_append]
+    rw [zipAll_append_left _ _ _ _ (by simp; omega), zipAll_reverse _ _ _ hlen]
+
+theorem evalView_eq_eval (eqv : Char → Char → Bool) (pr : Pred) (h : List Char) :
+    pr.evalView eqv h = pr.eval eqv h := by
+  cases pr <;> simp [Pred.evalView, Pred.eval, equalsBytes_prefix_gen, equalsBytes_suffix_gen]
+
+
+
+/-! ## ASCII case-insensitive fast paths -/
+
+def isAsciiStr (s : List Char) : Bool := s.all (fun c => c.toNat < 128)
+
+theorem bytesAscii_encodeCode (n : Nat) : bytesAscii (encodeCode n) = decide (n < 128) := by
+  unfold bytesAscii encodeCode
+  split
+  · simp [*]
+  · rename_i h
+    have : decide (n < 128) = false := by simp; omega
+    rw [this]
+    split
+    · simp
+    split
+    · simp
+    · simp
+
+theorem bytesAscii_encode (s : List Char) : bytesAscii (encode s) = isAsciiStr s := by
+  induction s with
+  | nil => rfl
+  | cons c s ih =>
+    have : bytesAscii (encodeChar c ++ encode s) = (bytesAscii (encodeChar c) && bytesAscii (encode s)) := by
+      simp [bytesAscii]
+    rw [encode, this, ih]
+    simp [encodeChar, bytesAscii_encodeCode, isAsciiStr]
+
+theorem encode_ascii (s : List Char) (h : isAsciiStr s = true) : encode s = s.map Char.toNat := by
+  induction s with
+  | nil => rfl
+  | cons c s ih =>
+    simp only [isAsciiStr, List.all_cons, Bool.and_eq_true, decide_eq_true_eq] at h
+    have hs : isAsciiStr s = true := by simpa [isAsciiStr] using h.2
+    simp [encode, encodeChar, encodeCode, h.1, ih hs]
+
+theorem char_le_iff (a b : Char) : a ≤ b ↔ a.toNat ≤ b.toNat := by
+  rw [Char.le_def]
+  exact UInt32.le_iff_toNat_le
+
+theorem ofNat_toNat (n : Nat) (hv : n.isValidChar) : (Char.ofNat n).toNat = n := by
+  unfold Char.ofNat
+  rw [dif_pos hv]
+  unfold Char.ofNatAux Char.toNat
+  simp [UInt32.toNat_ofNatLT]
+
+theorem asciiLower_toNat (c : Char) : (asciiLower c).toNat = asciiLowerByte c.toNat := by
+  unfold asciiLower asciiLowerByte
+  by_cases h : 'A' ≤ c ∧ c ≤ 'Z'
+  · have h' : 65 ≤ c.toNat ∧ c.toNat ≤ 90 := by
+      rw [char_le_iff, char_le_iff] at h; exact h
+    rw [if_pos h, if_pos h']
+    have hv : (c.toNat + 32).isValidChar := by
+      unfold Nat.isValidChar; omega
+    exact ofNat_toNat _ hv
+  · have h' : ¬ (65 ≤ c.toNat ∧ c.toNat ≤ 90) := by
+      rw [char_le_iff, char_le_iff] at h; exact h
+    rw [if_neg h, if_neg h']
+
+theorem asciiFoldEq_bytes (a b : Char) :
+    asciiFoldEq a b = byteEqIgnoreAsciiCase a.toNat b.toNat := by
+  unfold asciiFoldEq byteEqIgnoreAsciiCase
+  rw [← asciiLower_toNat, ← asciiLower_toNat]
+  apply Bool.eq_iff_iff.mpr
+  simp [Char.toNat_inj]
+
+theorem asciiFoldEq_comm (a b : Char) : asciiFoldEq a b = asciiFoldEq b a := by
+  unfold asciiFoldEq; exact BEq.comm
+
+
+
+theorem zipAll_fold (q s : List Char) :
+    zipAll byteEqIgnoreAsciiCase (s.map Char.toNat) (q.map Char.toNat) =
+      (List.zipWith (fun a b => asciiFoldEq a b) q s).all id := by
+  induction q generalizing s with
+  | nil => cases s <;> simp [zipAll]
+  | cons a q ih =>
+    cases s with
+    | nil => simp [zipAll]
+    | cons b s =>
+      simp [zipAll, ih, asciiFoldEq_bytes b a, asciiFoldEq_comm a b]
+
+theorem isPrefixG_zip (eqv : Char → Char → Bool) (q s : List Char) :
+    isPrefixG eqv q s = (decide (q.length ≤ s.length) && (List.zipWith (fun a b => eqv a b) q s).all id) := by
+  induction q generalizing s with
+  | nil => simp [isPrefixG]
+  | cons a q ih =>
+    cases s with
+    | nil => simp [isPrefixG]
+    | cons b s =>
+      simp only [isPrefixG, ih, List.length_cons, Nat.add_le_add_iff_right, List.zipWith_cons_cons,
+        List.all_cons, id]
+      cases eqv a b <;> simp
+
+theorem eqG_zip (eqv : Char → Char → Bool) (q s : List Char) :
+    eqG eqv q s = (decide (q.length = s.length) && (List.zipWith (fun a b => eqv a b) q s).all id) := by
+  induction q generalizing s with
+  | nil => cases s <;> simp [eqG]
+  | cons a q ih =>
+    cases s with
+    | nil => simp [eqG]
+    | cons b s =>
+      simp only [eqG, ih, List.length_cons, Nat.add_right_cancel_iff, List.zipWith_cons_cons,
+        List.all_cons, id]
+      cases eqv a b <;> simp
+
+/-- `IStartsWithAscii` on ASCII strings = prefix up to ASCII case -/
+theorem istartsWith_ascii (q s : List Char) (hq : isAsciiStr q = true) (hs : isAsciiStr s = true) :
+    bytesStartsWith byteEqIgnoreAsciiCase (encode s) (encode q) = isPrefixG asciiFoldEq q s := by
+  rw [encode_ascii q hq, encode_ascii s hs, isPrefixG_zip]
+  unfold bytesStartsWith
+  simp only [List.length_map, zipAll_fold]
+  by_cases h : q.length > s.length
+  · have : ¬ q.length ≤ s.length := by omega
+    simp [h, this]
+  · have : q.length ≤ s.length := by omega
+    simp [h, this]
+
+/-- `IEqAscii` (`str::eq_ignore_ascii_case`) on ASCII strings -/
+theorem ieq_ascii (q s : List Char) (hq : isAsciiStr q = true) (hs : isAsciiStr s = true) :
+    strEqIgnoreAsciiCase (encode s) (encode q) = eqG asciiFoldEq q s := by
+  rw [encode_ascii q hq, encode_ascii s hs, eqG_zip]
+  unfold strEqIgnoreAsciiCase
+  simp only [List.length_map, zipAll_fold]
+  congr 1
+  apply Bool.eq_iff_iff.mpr
+  simp only [beq_iff_eq, decide_eq_true_eq]
+  exact eq_comm
+
+theorem eqG_length (eqv : Char → Char → Bool) (q t : List Char) (h : eqG eqv q t = true) :
+    q.length = t.length := by
+  rw [eqG_zip] at h
+  simp only [Bool.and_eq_true, decide_eq_true_eq] at h
+  exact h.1
+
+theorem isSuffixG_drop (eqv : Char → Char → Bool) (q s : List Char) :
+    isSuffixG eqv q s = (decide (q.length ≤ s.length) && eqG eqv q (s.drop (s.length - q.length))) := by
+  apply Bool.eq_iff_iff.mpr
+  unfold isSuffixG
+  rw [anySuffix_iff]
+  simp only [Bool.and_eq_true, decide_eq_true_eq]
+  constructor
+  · rintro ⟨t, ht, he⟩
+    have hl := eqG_length _ _ _ he
+    have hle := ht.length_le
+    have := List.suffix_iff_eq_drop.mp ht
+    rw [hl, ← this]
+    exact ⟨by omega, he⟩
+  · rintro ⟨_, he⟩
+    exact ⟨_, List.drop_suffix _ _, he⟩
+
+theorem isAsciiStr_drop (s : List Char) (n : Nat) (h : isAsciiStr s = true) :
+    isAsciiStr (s.drop n) = true := by
+  unfold isAsciiStr at h ⊢
+  rw [List.all_eq_true] at h ⊢
+  intro c hc
+  exact h c (List.mem_of_mem_drop hc)
+
+/-- `IEndsWithAscii` on ASCII strings = suffix up to ASCII case -/
+theorem iendsWith_ascii (q s : List Char) (hq : isAsciiStr q = true) (hs : isAsciiStr s = true) :
+    bytesEndsWith byteEqIgnoreAsciiCase (encode s) (encode q) = isSuffixG asciiFoldEq q s := by
+  rw [← equalsBytes_suffix_gen, isSuffixG_drop]
+  rw [encode_ascii q hq, encode_ascii s hs]
+  unfold equalsBytes suffixBytes
+  simp only [List.length_map]
+  by_cases h : s.length < q.length
+  · have : ¬ q.length ≤ s.length := by omega
+    simp only [h, if_true, this, decide_false, Bool.false_and]
+    cases q with
+    | nil => simp at h
+    | cons a q => simp
+  · have h2 : q.length ≤ s.length := by omega
+    simp only [h, if_false, h2, decide_true, Bool.true_and]
+    rw [← List.map_drop, zipAll_fold, eqG_zip]
+    simp only [List.length_map, List.length_drop]
+    congr 1
+    apply Bool.eq_iff_iff.mpr
+    simp only [beq_iff_eq, decide_eq_true_eq]
+    omega
+
+
+
+theorem anySuffix_congr' (f g : List Char → Bool) (s : List Char) (h : ∀ t, t <:+ s → f t = g t) :
+    anySuffix f s = anySuffix g s := by
+  induction s with
+  | nil => simp [anySuffix, h [] (List.suffix_refl _)]
+  | cons x s ih =>
+    simp only [anySuffix]
+    rw [h _ (List.suffix_refl _), ih (fun t ht => h t (ht.trans (List.suffix_cons x s)))]
+
+/-- LIKE only looks at the relation on (pattern literal, subject character) pairs -/
+theorem likeMatchG_congr (e1 e2 : Char → Char → Bool) (toks : List Tok) (s : List Char)
+    (h : ∀ c, Tok.lit c ∈ toks → ∀ b ∈ s, e1 c b = e2 c b) :
+    likeMatchG e1 toks s = likeMatchG e2 toks s := by
+  induction toks generalizing s with
+  | nil => simp [likeMatchG]
+  | cons t toks ih =>
+    have ih' : ∀ s', (∀ b ∈ s', b ∈ s) → likeMatchG e1 toks s' = likeMatchG e2 toks s' :=
+      fun s' hs' => ih s' (fun c hc b hb => h c (List.mem_cons_of_mem _ hc) b (hs' b hb))
+    cases t with
+    | lit c =>
+      cases s with
+      | nil => simp [likeMatchG]
+      | cons x s =>
+        simp only [likeMatchG]
+        rw [h c (by simp) x (by simp), ih' s (fun b hb => by simp [hb])]
+    | one =>
+      cases s with
+      | nil => simp [likeMatchG]
+      | cons x s =>
+        simp only [likeMatchG]
+        exact ih' s (fun b hb => by simp [hb])
+    | many =>
+      simp only [likeMatchG]
+      apply anySuffix_congr'
+      intro t ht
+      exact ih' t (fun b hb => ht.subset hb)
+
+theorem lit_mem_tokenise (p : List Char) (c : Char) (h : Tok.lit c ∈ tokenise p) : c ∈ p := by
+  fun_induction tokenise p <;> simp_all <;> grind
+
+
+
+theorem isAsciiStr_of_subset (q p : List Char) (hsub : ∀ c ∈ q, c ∈ p) (h : isAsciiStr p = true) :
+    isAsciiStr q = true := by
+  unfold isAsciiStr at h ⊢
+  rw [List.all_eq_true] at h ⊢
+  exact fun c hc => h c (hsub c hc)
+
+theorem isAsciiStr_mem (p : List Char) (h : isAsciiStr p = true) (c : Char) (hc : c ∈ p) :
+    c.toNat < 128 := by
+  unfold isAsciiStr at h
+  rw [List.all_eq_true] at h
+  simpa using h c hc
+
+theorem like_fold_ascii (eqv : Char → Char → Bool)
+    (hfold : ∀ a b : Char, a.toNat < 128 → b.toNat < 128 → eqv a b = asciiFoldEq a b)
+    (p s : List Char) (hp : isAsciiStr p = true) (hs : isAsciiStr s = true) :
+    likeMatchG eqv (tokenise p) s = likeMatchG asciiFoldEq (tokenise p) s :=
+  likeMatchG_congr _ _ _ _ (fun c hc b hb =>
+    hfold c b (isAsciiStr_mem p hp c (lit_mem_tokenise p c hc)) (isAsciiStr_mem s hs b hb))
+
+theorem classifyILike_fast_ascii (eqv : Char → Char → Bool) (p s : List Char)
+    (hp : isAsciiStr p = true) (hs : isAsciiStr s = true)
+    (hrx : (regexLike p).isMatch eqv s = likeMatchG asciiFoldEq (tokenise p) s) :
+    (classifyILike p true).eval eqv s = likeMatchG asciiFoldEq (tokenise p) s := by
+  unfold classifyILike
+  simp only [containsLikePattern_encode, dropEnd_eq, dropStart_eq, bytesAscii_encode, hp,
+    Bool.and_self, if_true]
+  split
+  · rename_i h
+    simp only [Bool.not_eq_true'] at h
+    simp only [Pred.eval]
+    rw [ieq_ascii p s hp hs, tokenise_plain p (by simpa using h), likeMatchG_plain]
+  split
+  · rename_i _ h
+    simp only [Bool.and_eq_true, Bool.not_eq_true'] at h
+    have hpe := getLast?_beq_some h.1.1
+    have hq : isAsciiStr p.dropLast = true :=
+      isAsciiStr_of_subset _ p (fun c hc => List.dropLast_subset p hc) hp
+    simp only [Pred.eval]
+    rw [istartsWith_ascii _ s hq hs]
+    conv => rhs; rw [hpe]
+    rw [tokenise_plain_append _ _ (by simpa using h.2),
+      show tokenise ['%'] = [Tok.many] by simp [tokenise], likeMatchG_prefix]
+  split
+  · rename_i _ _ h
+    simp only [Bool.and_eq_true, Bool.not_eq_true'] at h
+    have hpe := head?_beq_some h.1
+    have hq : isAsciiStr p.tail = true :=
+      isAsciiStr_of_subset _ p (fun c hc => List.mem_of_mem_tail hc) hp
+    simp only [Pred.eval]
+    rw [iendsWith_ascii _ s hq hs]
+    conv => rhs; rw [hpe]
+    rw [tokenise_percent, tokenise_plain _ (by simpa using h.2), likeMatchG_suffix]
+  · simp only [Pred.eval]
+    exact hrx
+
+
 end ArrowModel.C20
